@@ -31,7 +31,7 @@ from sa.pat import match, same, attr_path
 from sa.types import base
 from .c20_util import (Counter, Accumulator, value_set, bind_args, compare, c_norm, c_const, fmt_count, parts_of, cases_of,
                        const_str, eq_const, cmp_norm, cmp_oriented, split_disj, range_over, is_zero, mentions, root_name,
-                       is_opaque)
+                       is_opaque, xexpand)
 
 SUBTREE = 'task._Repr.__print_task_subtree'
 REPR = 'task._Repr.repr'
@@ -300,34 +300,90 @@ def _rows(ctx):
     ctx.guarded(o_top, header)
 
 
-def _cell_values(ctx, f, tables):
-    """[(value expression, cfg node of its evaluation, call/append node)] for every text that reaches table.new_cell in f:
+def _list_texts(f, lst, at):
+    """expressions that become the elements of the local list `lst` (appends, or the element of a comprehension)"""
+    cfg, fl = cfg_of(f), flow_of(f)
+    apps = [n for n in facts.calls_named(f, 'append') if isinstance(n.func, ast.Attribute)
+            and isinstance(n.func.value, ast.Name) and n.func.value.id == lst and len(n.args) == 1]
+    if apps:
+        return [(n.args[0], cfg.node_containing(n), n) for n in apps]
+    defs = fl.reaching(lst, at) if at is not None else []
+    if len(defs) == 1 and defs[0].kind == 'assign' and isinstance(defs[0].value, ast.ListComp):
+        return [(defs[0].value.elt, defs[0].node, defs[0].value)]
+    return None
+
+
+def _cell_values(ctx, f, tables, depth=0):
+    """[(value expression, cfg node of its evaluation, call/append node)] for every text that reaches table.new_cell from f:
     the argument itself, or - when the argument is the variable of a loop over a list built by appends - the appended
-    expressions"""
+    expressions; helpers that receive the table are followed and their parameters mapped back to the arguments.
+    Second result: nodes whose text could not be traced."""
     cfg, fl = cfg_of(f), flow_of(f)
     out, unknown = [], []
-    for c in facts.calls_named(f, 'new_cell'):
-        if not (isinstance(c.func, ast.Attribute) and isinstance(c.func.value, ast.Name) and c.func.value.id in tables and c.args):
-            continue
-        a = c.args[0] if c.args else next((k.value for k in c.keywords if k.arg == 'text'), None)
-        cn = cfg.node_containing(c)
+
+    def add(a, cn, node):
         if isinstance(a, ast.Name):
             loop = next((fo for fo in cfg.enclosing_fors(cn) if isinstance(fo.target, ast.Name) and fo.target.id == a.id), None)
             if loop is not None and isinstance(loop.iter, ast.Name):
-                lst = loop.iter.id
-                apps = [n for n in facts.calls_named(f, 'append') if isinstance(n.func, ast.Attribute)
-                        and isinstance(n.func.value, ast.Name) and n.func.value.id == lst and len(n.args) == 1]
-                if apps:
-                    for n in apps:
-                        out.append((n.args[0], cfg.node_containing(n), n))
-                    continue
-                defs = fl.reaching(lst, cfg.node_of(loop))
-                if len(defs) == 1 and defs[0].kind == 'assign' and isinstance(defs[0].value, ast.ListComp):
-                    out.append((defs[0].value.elt, defs[0].node, defs[0].value))
-                    continue
-                unknown.append(c)
+                if loop.iter.id in f.params and depth > 0:
+                    out.append((('elem', loop.iter.id), None, node))
+                    return
+                got = _list_texts(f, loop.iter.id, cfg.node_of(loop))
+                if got is None:
+                    unknown.append(node)
+                else:
+                    out.extend(got)
+                return
+            if a.id in f.params and depth > 0 and all(d.kind == 'param' for d in fl.reaching(a.id, cn)):
+                out.append((('param', a.id), None, node))
+                return
+        out.append((a, cn, node))
+
+    for c in facts.calls_named(f, 'new_cell'):
+        if not (isinstance(c.func, ast.Attribute) and isinstance(c.func.value, ast.Name) and c.func.value.id in tables):
+            continue
+        a = c.args[0] if c.args else next((k.value for k in c.keywords if k.arg == 'text'), None)
+        if a is None:
+            unknown.append(c)
+            continue
+        add(a, cfg.node_containing(c), c)
+    if depth < 3:
+        helper = Counter(ctx)
+        for c in [n for n in walk_no_nested(f.node) if isinstance(n, ast.Call)]:
+            g = helper.target_of(c, f)
+            if g is None or g.qual == f.qual or g.qual == SUBTREE:
                 continue
-        out.append((a, cn, c))
+            b = bind_args(c, g, drop_self=g.kind == 'method')
+            if b is None:
+                continue
+            gt = {p for p, a in b.items() if isinstance(a, ast.Name) and a.id in tables}
+            if not gt:
+                continue
+            sub, sub_unknown = _cell_values(ctx, g, gt, depth + 1)
+            unknown.extend(c for _ in sub_unknown)
+            cn = cfg.node_containing(c)
+            for e, at, node in sub:
+                if isinstance(e, tuple):
+                    arg = b.get(e[1])
+                    if arg is None:
+                        unknown.append(c)
+                    elif e[0] == 'param':
+                        add(arg, cn, c)
+                    elif isinstance(arg, ast.Name):
+                        if arg.id in f.params and depth > 0:
+                            out.append((('elem', arg.id), None, c))
+                        else:
+                            got = _list_texts(f, arg.id, cn)
+                            if got is None:
+                                unknown.append(c)
+                            else:
+                                out.extend(got)
+                    elif isinstance(arg, ast.ListComp):
+                        out.append((arg.elt, cn, c))
+                    else:
+                        unknown.append(c)
+                else:
+                    unknown.append(c)      # text computed inside the helper: not comparable in the caller's terms
     return out, unknown
 
 
@@ -1478,6 +1534,7 @@ def _usage(ctx):
                         hit = True
             if not hit:
                 o.undecided(f, f.node, '__repr__', "no `while day <= last day` loop producing the table rows")
+            o2.undecided(f, f.node, '__repr__', "cells per day not compared: the day loop was not recognised")
             return
         w = whiles[0]
         wn = cfg.node_of(w)
@@ -1516,10 +1573,10 @@ def _usage(ctx):
                 if len(ds) != 1 or ds[0].kind != 'assign':
                     o.undecided(f, w, d, f"initial value of `{d}` not unique")
                     continue
-                v = ex.expand(ds[0].value, ds[0].node)
+                v = xexpand(ex, ds[0].value, ds[0].node)
                 node = ds[0].stmt
             else:
-                v = ex.expand(e, at)
+                v = xexpand(ex, e, at)
                 node = w
             m = match(f"{fn}($x)", v)
             mo = match(f"{other}($x)", v)
